@@ -74,9 +74,11 @@ def check_pwa(o):
             a_ = klass(_PC2(S.copy()), _TM2(T.copy(), trilist=other_tl))
             b_ = klass(_PC2(S.copy()), _PC2(T.copy()))
             inner = S.mean(axis=0)[None] * 0.5 + S[:3].mean(axis=0)[None] * 0.5
+            if not np.array_equal(np.asarray(a_.source.trilist), np.asarray(b_.source.trilist)):
+                bad.append(("a PWA from a plain point cloud triangulates its source differently when the TARGET carries a triangle list", {}, None))
             try:
-                if not L.close(a_.apply(inner), b_.apply(inner), TOL) or not np.array_equal(np.asarray(a_.source.trilist), np.asarray(b_.source.trilist)):
-                    bad.append(("a PWA from a plain point cloud triangulates its source differently when the TARGET carries a triangle list", {}, None))
+                if not L.close(a_.apply(inner), b_.apply(inner), TOL):
+                    bad.append(("a PWA from a plain point cloud maps differently when the TARGET carries a triangle list", {}, None))
                 b_.set_target(_TM2(T.copy(), trilist=other_tl))
                 if not L.close(b_.apply(inner), a_.apply(inner), TOL):
                     bad.append(("a PWA retargeted to a mesh differs from the PWA built to that mesh (the triangulation depends on the history)", {}, None))
